@@ -14,6 +14,7 @@ from simkit.runner import run_entry
 from workloads import options
 
 PROP = "C18"
+ISOLATE_RUNS = True  # every run in its own forked process: leaks between runs can only come from an explicit, recorded prelude
 RULE = (
     "one evaluation = one analysis call with one option tuple (drawn without repetition from the entry point's option "
     "cross-product by a seeded affine permutation) on one seeded spectrum under one seeded deployment/schedule; distinct = "
@@ -85,7 +86,7 @@ def draw_config(rng, wl, tier):
         "settle": rng.random() < 0.7,
         # an earlier analysis in the same process that is refused or aborts inside its Progress context;
         # whatever it leaves in the global progress state meets the analysis under test (no settling between)
-        "prelude": rng.choice(["fit_one_point", "zhit_bad_order", "kk_two_points", "drt_unknown"]) if rng.random() < 0.2 else None,
+        "prelude": rng.choice(["fit_one_point", "zhit_bad_order", "kk_two_points", "drt_unknown", "kk_suggest", "kk_suggest", "zhit_auto"]) if rng.random() < 0.25 else None,
     }
     if cfg["prelude"]:
         cfg["settle"] = False
@@ -144,6 +145,12 @@ PRELUDES = {
                        "data": {"cdc": "R{R=100}(R{R=200}C{C=1e-6})", "logf": [4, 0], "n": 11, "mask": []}},
     "kk_two_points": {"entry": "perform_kramers_kronig_test", "kwargs": {"test": "real"},
                       "data": {"cdc": "R{R=100}(R{R=200}C{C=1e-6})", "logf": [4, 0], "n": 2, "mask": []}},
+    # completing analyses: whatever interpreter-global state they leave (warning filters, numpy error
+    # state, caches) meets the analysis under test
+    "kk_suggest": {"entry": "perform_kramers_kronig_test", "kwargs": {"test": "real", "num_F_ext_evaluations": 0},
+                   "data": {"cdc": "R{R=100}(R{R=200}C{C=1e-6})(R{R=300}C{C=1e-4})", "logf": [5, 0], "n": 21, "noise_pct": 0.5, "noise_seed": 5, "mask": []}},
+    "zhit_auto": {"entry": "perform_zhit", "kwargs": {"smoothing": "savgol", "interpolation": "akima", "weights": {"__ones__": True}},
+                  "data": {"cdc": "R{R=100}(R{R=200}C{C=1e-6})", "logf": [4, 0], "n": 11, "noise_pct": 0.1, "noise_seed": 2, "mask": []}},
     "drt_unknown": {"entry": "calculate_drt", "kwargs": {"method": "nope"},
                     "data": {"cdc": "R{R=100}(R{R=200}C{C=1e-6})", "logf": [4, 0], "n": 9, "mask": []}},
 }
